@@ -384,6 +384,13 @@ def strip_mod(v, modulus=NZ):
     return v, False
 
 
+def _ite_leaves(e):
+    """the alternatives of (nested) conditionals at the top of an expression"""
+    if isinstance(e, ITE):
+        return _ite_leaves(e.args[1]) + _ite_leaves(e.args[2])
+    return [e]
+
+
 def params_in(e):
     return sorted({n.id[2:] for n in ast.walk(e) if isinstance(n, ast.Name) and n.id.startswith("P_")})
 
@@ -456,24 +463,32 @@ def stencil_facts(chk):
         ns = NpSym(env={params[0]: NPTS, "int": lambda x: x})
         ns.run(fn.body)
         sh = ns.env.get("self._shifts")
-        if sh is not None and ns.aranges.get("K") is not None and len(ns.aranges["K"]) == 1:
+        # the engine writes EVERY np.arange(...) as the one symbol K: its reading as "entry counter of the stencil" needs exactly one
+        # arange call in the method, without step / keyword arguments
+        n_ar = [c_ for c_ in ast.walk(fn) if isinstance(c_, ast.Call) and src(c_.func) in ("np.arange", "numpy.arange", "arange")]
+        ar = ns.aranges.get("K") if len(n_ar) == 1 and not n_ar[0].keywords else None
+        if sh is not None and ar is not None and len(ar) in (1, 2):
             try:
-                cnt = ns.ev(ns.aranges["K"][0])
+                a0 = Integer(0) if len(ar) == 1 else ns.ev(ar[0])
+                cnt = ns.ev(ar[-1]) - a0
             except Undecided:
-                cnt = None
-            lin = sp.expand(sh - K)
+                a0 = cnt = None
             slope = sp.simplify(sp.diff(sh, K)) if isinstance(sh, sp.Basic) else None
-            if cnt is not None and slope in (Integer(1), Integer(-1)) and sp.simplify(cnt - NPTS) == 0:
-                # stored shift of entry c (K = arange(n) counts the entries); increasing (+1) or decreasing (-1) with c
-                first, last = sh.subs(K, 0), sh.subs(K, NPTS - 1)
+            same_cnt = equal_for_all_n(cnt, NPTS) if cnt is not None and not cnt.has(K) else (None, None, None, None)
+            if cnt is not None and slope in (Integer(1), Integer(-1)) and same_cnt[0] is True:
+                # stored shift of entry c (K = a0 + c runs over the arange): increasing (+1) or decreasing (-1) with c
+                shf = lambda c, sh=sh, a0=a0: sh.subs(K, a0 + c)
+                first, last = shf(Integer(0)), shf(NPTS - 1)
                 if slope == 1:
-                    facts["start"] = lin
-                facts["shift"] = lambda c, sh=sh: sh.subs(K, c)
+                    facts["start"] = sp.expand(first)
+                facts["shift"] = shf
                 hi_, lo_ = (last, first) if slope == 1 else (first, last)
                 for k, v in (("self._shifts[-1]", last), ("self._shifts[0]", first), ("self._shifts.max()", hi_),
                              ("self._shifts.min()", lo_), ("np.max(self._shifts)", hi_), ("np.min(self._shifts)", lo_)):
                     ns.hooks[k] = v
                 ns.run(fn.body)
+            elif cnt is not None and slope in (Integer(1), Integer(-1)) and same_cnt[0] is False:
+                facts["count_mismatch"] = (cnt,) + tuple(same_cnt[1:])
             elif cnt is not None and sh is not None:
                 facts["shifts_raw"] = sh
         facts["npsym"] = ns
@@ -572,7 +587,10 @@ def fd_system(chk):
             elif isinstance(pos, int) and isinstance(val, (int, float)):
                 bad = (f"the right-hand side is {val} at moment {pos} (`{src(bset[0])}`), not the unit vector e_1: the weights reproduce "
                        f"{'a multiple of ' if pos == 1 else ''}the derivative of order {pos}, not the first derivative")
-        elif not bset:
+        elif not bset and all(isinstance(parent(x), ast.Call) and src(parent(x).func).split(".")[-1] == "solve"
+                              for x in ast.walk(fn) if isinstance(x, ast.Name) and x.id == "b" and isinstance(x.ctx, ast.Load)):
+            # not FINDING the store is a defect only when b is used nowhere else: np.zeros(n) goes straight into solve(A, b) (an entry
+            # set through a call - b.put, np.put, b.itemset - or a view would be a use this rule does not follow)
             bad = "the right-hand side stays zero: no moment is selected, all weights vanish"
     chk.pat("F7-fd-system", bset[0] if bset else (bdef[0] if bdef else fn), "b = e_1", ok,
             "right-hand side selects the first derivative (moment 1)", bad, file=U.ADV, func=q)
@@ -581,12 +599,19 @@ def fd_system(chk):
     shdef = [s for s in ast.walk(fn) if isinstance(s, ast.Assign) and src(s.targets[0]) == "self._shifts"]
     ok = bad = None
     if "start" in facts:
+        # VIOLATED-soundness: facts['start'] is the symbolic first EFFECTIVE shift (stored shifts read through the scatter's convention), from
+        # exactly one np.arange in the method; equal_for_all_n says False only for a numeric difference free of unknown symbols
         r, par, x, y = equal_for_all_n(facts["start"], want_start)
         if r is True:
             ok = True
         elif r is False:
             bad = (f"the stencil is the n consecutive shifts starting at {facts['start']} (= {x} for an {par} number of points), expected "
                    f"1 - (n+1)//2 (= {y}): the stencil is not centred on the node, the difference quotient loses an order / is one-sided")
+    if ok is None and bad is None and "count_mismatch" in facts:
+        cnt, par, x, y = facts["count_mismatch"]
+        bad = (f"self._shifts has {cnt} entries (= {x} for an {par} number n of stencil points, n = {y}) while the moment system is solved "
+               "for n weights: shifts and weights are paired entry by entry (zip / common index), so the last weight(s) have no shift - "
+               "the stencil loses points, the remaining weights no longer sum to zero and the combination is not a derivative")
     chk.pat("F7-fd-system", shdef[0] if shdef else fn, "shifts = arange(n) + 1 - (n+1)//2", ok,
             "n consecutive integer shifts, symmetric about 0 when n is odd (even order)", bad, file=U.ADV, func=q)
     # ---- moment matrix A[i, j] = shift_j ** i and coefficients = solve(A, b)
@@ -1140,6 +1165,8 @@ def theta_table(chk):
     for f_, want_ in (("iota", "P_iota"), ("r", "P_r"), ("R0", "P_R0")):
         if f_ in b and not same_expr(b[f_], want_):
             unknown.append(f"fieldline receives `{src(b[f_])}` as `{f_}`")
+    # VIOLATED-soundness: `diffs` holds symbolic differences decided for both parities of n (z displacement of column c vs dz*shift_c
+    # under the scatter's convention; number of columns written vs n); everything not followed is in `unknown`
     ok = False if diffs else (None if unknown else True)
     chk.ob("F7-theta-table", node, label, ok,
            "column c of the table = angle reached from each theta node by following the field line over shift_c cells (dz x shift_c); "
@@ -1662,6 +1689,7 @@ def regimes(chk):
             kind = classify_skip(test, pol)
             if kind[0] == "zero":
                 continue
+            # VIOLATED-soundness: recognised guard forms on the source row itself (any / all == 0 / ptp == 0 / thresholds), read with polarity
             if kind[0] == "nonzero":
                 chk.ob("F7-regimes", c.ev.node, "every source row in [0, nz) contributes", False,
                        f"the contributions of a source row are skipped when `{kind[1]}`, which holds for {kind[2]}: a source row k feeds the n "
@@ -1696,6 +1724,7 @@ def regimes(chk):
             bounds.append((to_sym(f.lo), to_sym(f.hi)))
         except Undecided as e:
             unknown.append(f"bounds [{src(f.lo)}, {src(f.hi)}): {e}")
+    # VIOLATED-soundness: recognised wrong form - the row range depends on a caller argument AND is clipped to [0, nz) by min/max
     if clip:
         f, ps, cl = clip[0]
         nm = [p for p in ps if p not in ("phi_r", "i", "der")] or ps
@@ -1709,10 +1738,22 @@ def regimes(chk):
         chk.ob("F7-regimes", frames[0].node, label, None, "; ".join(unknown) or
                "the row ranges depend on arguments of the call: coverage of [0, nz) not established", file=U.ADV, func=q)
         return m
-    # tiling
+    # tiling: the ranges, in ANY program order, chain from 0 to nz (each starts where another ends); only when no such chain exists
+    # are the ranges compared in program order, and a gap is a violation only when it has a definite sign
+    def _zero(d):
+        d2 = concretise(sp.simplify(d), facts)
+        return sp.simplify(d) == 0 or all(sp.simplify(x) == 0 for x in parities(d2))
+    cur_, left_ = Integer(0), list(bounds)
+    while left_:
+        nxt = [b_ for b_ in left_ if _zero(b_[0] - cur_)]
+        if len(nxt) != 1:
+            break
+        cur_ = nxt[0][1]
+        left_.remove(nxt[0])
+    chained = not left_ and _zero(cur_ - NZ)
     gaps = []
     seq = [Integer(0)] + [x for b in bounds for x in b] + [NZ]
-    for k in range(0, len(seq), 2):
+    for k in range(0, len(seq) if not chained else 0, 2):
         d = sp.simplify(seq[k] - seq[k + 1])
         if d != 0:
             where = "first row" if k == 0 else "last row" if k == len(seq) - 2 else f"between range {k // 2} and {k // 2 + 1}"
@@ -1885,6 +1926,40 @@ def _dedup_map_kind(chk, rad):
     return "consistent"
 
 
+def _caller_hands_stale_rows(chk):
+    """VParallelAdvection.gridStep passes `parGradVals[i]` (a row of the table its caller keeps between time steps) as the output
+    array and nothing in gridStep writes the table before the call: True; anything else (call not found, table written / filled /
+    re-allocated before the call, output array built otherwise): False"""
+    try:
+        from .C05 import vpar_entry
+        from .. import agree
+        gs = vpar_entry(chk, "gridStep")
+        pgf = chk.func(U.ADV, f"{CLS}.parallel_gradient")
+        params = [a.arg for a in pgf.args.args if a.arg != "self"]
+        calls = [c for c in ast.walk(gs) if isinstance(c, ast.Call) and isinstance(c.func, ast.Attribute) and c.func.attr == "parallel_gradient"]
+        if len(calls) != 1 or len(params) < 3:
+            return False
+        b = agree.bind_call(calls[0], params) or {}
+        out = b.get(params[2])
+        if not (isinstance(out, ast.Subscript) and isinstance(out.value, ast.Name) and out.value.id in {a.arg for a in gs.args.args}):
+            return False
+        tab = out.value.id
+        for n in ast.walk(gs):
+            if getattr(n, "lineno", 10 ** 9) > calls[0].lineno or n is calls[0]:
+                continue
+            t = n.targets[0] if isinstance(n, ast.Assign) else n.target if isinstance(n, ast.AugAssign) else None
+            while isinstance(t, ast.Subscript):
+                t = t.value
+            if isinstance(t, ast.Name) and t.id == tab:
+                return False
+            if isinstance(n, ast.Call) and n is not calls[0] and any(isinstance(x, ast.Name) and x.id == tab for a_ in list(n.args) + [n.func] for x in ast.walk(a_)) \
+                    and not any(n is x for x in ast.walk(calls[0])):
+                return False
+        return True
+    except Exception:          # noqa: BLE001
+        return False
+
+
 def gradient_formula(chk, m):
     from ..core import same_expr
     fn = m["fn"]
@@ -1906,9 +1981,22 @@ def gradient_formula(chk, m):
             # target row = row - shift_j (mod nz)
             try:
                 core, wr = strip_mod(to_sym(c.target))
-                d = sp.simplify(core - (k - facts["conv"](SHIFT(j))))
-                if d != 0 and not (wr and sp.simplify(d / NZ).is_integer):
-                    if sp.simplify(core - (k + SHIFT(j))) == 0:
+                want_row = k - facts["conv"](SHIFT(j))
+                d = sp.simplify(core - want_row)
+                # VIOLATED below needs the target row as a closed expression in the source row and the shift of entry j alone
+                # (integers, nz, the stencil constants): a row corrected conditionally (`if row < 0: row += nz`), clipped (min/max) or
+                # computed by anything else is not such an expression.  A conditional whose every alternative differs from
+                # (row - shift_j) by a whole multiple of nz IS that row modulo nz - which alternative is taken only matters for the range
+                # of the index (F7-regimes)
+                leaves = _ite_leaves(core)
+                plain = not core.has(ITE) and all(a.func == SHIFT for a in core.atoms(sp.Function)) and \
+                    not (core.free_symbols - {k, j, NZ, NPTS, FWD, BKWD})
+                if core.has(ITE) and all((sp.simplify((lf - want_row) / NZ).is_integer or sp.simplify(lf - want_row) == 0) for lf in leaves):
+                    c.row_wrapped_by_comparison = True
+                elif d != 0 and not (wr and sp.simplify(d / NZ).is_integer):
+                    if not plain:
+                        unknown.append(f"target row {core} is not a closed expression in the source row and shift_j: not compared")
+                    elif sp.simplify(core - (k + SHIFT(j))) == 0:
                         bad.append(f"the contribution of source row r with shift s is accumulated into row r + s (`{src(c.ev.node.target if isinstance(c.ev.node, ast.AugAssign) else c.ev.node.targets[0])}`), "
                                    "not r - s: der[k] then combines the rows k - s_j with the weights of +s_j - the derivative along the "
                                    "reversed field line (sign and, for odd orders, stencil are wrong)")
@@ -1918,8 +2006,8 @@ def gradient_formula(chk, m):
                         unknown.append(f"target row {core}")
             except Undecided as e:
                 unknown.append(f"target row `{src(c.target)}`: {e}")
-            if not isinstance(c.op, ast.Add):
-                bad.append(f"`{src(c.ev.node)[:70]}` subtracts the stencil contribution")
+            # `der[t] -= w * v` adds the contribution with weight -w: the sign is part of the weight (the total factor is F7-scaling's
+            # subject), not a defect by itself
             # weight = coeff_j (times call-invariant factors, judged by F7-scaling)
             try:
                 val = to_sym(c.value)
@@ -1928,6 +2016,8 @@ def gradient_formula(chk, m):
                 if w.has(B) or sp.simplify(val.subs(B, 0)) != 0:
                     unknown.append(f"accumulated value {val} is not linear in the interpolated row")
                 else:
+                    if isinstance(c.op, ast.Sub):
+                        w = -w
                     c.weight = w
                     cj = [a for a in w.atoms(sp.Function) if a.func == COEFF]
                     if len(cj) != 1 or sp.simplify(sp.diff(w, cj[0]) * cj[0] - w) != 0:
@@ -2002,7 +2092,9 @@ def gradient_formula(chk, m):
     ok0 = bad0 = None
     if clears and isinstance(clears[-1][1], ast.Constant) and clears[-1][1].value == 0 and not clears[-1][0].guards:
         ok0 = True
-    elif not m["clears"] and not m["why"] and m["contribs"]:
+    elif not m["clears"] and not m["why"] and m["contribs"] and _caller_hands_stale_rows(chk):
+        # caller and callee are one unit: not FINDING the clearing in the callee is a defect only when the caller demonstrably hands
+        # over a row of the table that persists between time steps without clearing it first
         bad0 = ("the result array is never cleared: the stencil contributions are added to whatever the caller's array held (the table "
                 "row of the previous time step in VParallelAdvection.gridStep)")
     chk.pat("F7-gradient-formula", clears[-1][0].node if clears else fn, "der[:] = 0 before accumulation", ok0,
@@ -2036,6 +2128,17 @@ def gradient_formula(chk, m):
     else:
         i_par = Symbol("P_i")
         want = BZ(i_par) * INVDZ
+        # BZ(i) below is the ENTRY of self._bz; the specification speaks of b_z(r_i).  What the constructor stores is b_z(r) times a
+        # radius-independent factor `bz_ratio` (1 in the reference; 1/dz or a sign when the scaling was moved between constructor and
+        # method), established by the model of the constructor shared with C10 (F6-sibling-geometry).  The total factor is judged end
+        # to end: (factor applied here) x bz_ratio = 1/dz.  Unknown content of self._bz -> a mismatch is UNDECIDED
+        from .C10 import _store as _c10_store
+        if "_c10_bz_ratio" not in _c10_store(chk):
+            try:
+                sibling_geometry(_Quiet(chk))
+            except Exception:          # noqa: BLE001
+                pass
+        bz_ratio = _c10_store(chk).get("_c10_bz_ratio")
         for c in m["contribs"]:
             j = Symbol(c.sten.sym, integer=True)
             tot = sp.simplify(c.weight * total / COEFF(j))
@@ -2051,7 +2154,19 @@ def gradient_formula(chk, m):
                 v_ = ni.env.get(str(s_)) if str(s_).startswith("self.") else None
                 if isinstance(v_, sp.Basic):
                     tot = sp.simplify(tot.subs(s_, v_))
+            if bz_ratio is not None and bz_ratio != 1:
+                try:
+                    rr = bz_ratio
+                    if dzv is not None:
+                        rr = rr.subs(Symbol("dz", real=True), Symbol("dz", positive=True))
+                    tot = sp.simplify(tot * rr)
+                except Exception:          # noqa: BLE001
+                    bz_ratio = None
             if alg_equal(tot, w2):
+                continue
+            if bz_ratio is None:
+                unknown.append(f"total factor of a contribution is {tot} (in terms of the entries of self._bz), but what the constructor "
+                               "stores in self._bz was not extracted: not compared")
                 continue
             bzs = [a for a in tot.atoms(sp.Function) if a.func == BZ and sp.simplify(a.args[0] - i_par) != 0]
             # b_z taken at a re-based radial index that also selects the angle table: consistent, the index space is engine C's subject
@@ -2094,6 +2209,22 @@ def gradient_formula(chk, m):
            "the precomputed b_z, angle and coefficient tables are only read" if not muts else
            "; ".join(d for _, d in muts) + " - the stored table is changed by every call, so later calls (other radii, later time "
            "steps) are scaled again", file=U.ADV, func=q)
+
+
+class _Quiet:
+    """view of a check that records nothing (a shared model is run for its facts only)"""
+
+    def __init__(self, chk):
+        self._real = chk
+
+    def __getattr__(self, name):
+        return getattr(self._real, name)
+
+    def ob(self, *a, **k):
+        return None
+
+    def pat(self, *a, **k):
+        return None
 
 
 def run(chk):
